@@ -194,7 +194,7 @@ def bind_varkw(contract, fn, bindings, kwargs):
             bindings[p.name] = {k: v for k, v in kwargs.items() if k not in named}
 
 
-def check_call(contract, fn, args, kwargs=None, argnames=None, universe=None, check_pre=True, self_obj=None, ghost=None):
+def check_call(contract, fn, args, kwargs=None, argnames=None, universe=None, check_pre=True, self_obj=None, ghost=None, extra=None):
     """Run fn(*args, **kwargs) under the contract.  Returns the result.
     Raises ContractViolation('pre'|'post'|'raises', clause)."""
     kwargs = dict(kwargs or {})
@@ -210,6 +210,8 @@ def check_call(contract, fn, args, kwargs=None, argnames=None, universe=None, ch
     for n, d in contract.defaults.items():
         if n not in bindings:
             bindings[n] = eval(d)
+    if extra:
+        bindings.update(extra)  # per-case native meanings of the contract's uninterpreted symbols
     for gname, (gtype, gexpr) in contract.ghost.items():
         # a ghost value is either defined by an expression or supplied with the case (harness-provided witness)
         bindings[gname] = ghost[gname] if ghost and gname in ghost else evaluate(contract, gexpr, dict(bindings), universe)
@@ -246,6 +248,10 @@ def check_call(contract, fn, args, kwargs=None, argnames=None, universe=None, ch
             raise ContractViolation("raises", f"{name} raised but not allowed: {cond}", repr(e))
         raise ContractViolation("raises", f"no {name} escapes", repr(e))
     old_env["__old__"] = __old__  # old(...) nested inside old(...) is the same pre-state
+    import types as _types
+
+    if isinstance(result, _types.GeneratorType):
+        result = list(result)  # a generator is specified by the sequence it yields
     post_bind = dict(bindings)
     post_bind["result"] = result
     old_env["result"] = result  # visible (by value) inside old(...)
